@@ -8,13 +8,15 @@ COMMON_FLAGS = {
     "asan": ["-std=gnu++17", "-O1", "-g", "-fsanitize=address", "-fno-omit-frame-pointer", "-w"],
     "tsan": ["-std=gnu++17", "-O1", "-g", "-fsanitize=thread", "-w"],
 }
-COMMON_VARIANT = {"sem": "plain", "asan": "asan", "tsan": "tsan"}
+COMMON_VARIANT = {"sem": "plain", "semp": "plain", "asan": "asan", "tsan": "tsan"}
 
 
 def flags_for(variant, repo, spec):
     inc = ["-I" + repo + "/include", "-I" + repo + "/c-interface"]
     if variant == "sem":
         return BASE + ["-O2", "-fopenmp"] + inc
+    if variant == "semp":  # "portable" lane: generic x86-64 (no SSE4.2 / BMI2 / AVX2), i.e. the fallback branches of the vendored sdsl
+        return [f for f in BASE if f != "-march=native"] + ["-O2", "-fopenmp"] + inc
     if variant == "asan":
         return BASE + ["-O1", "-g", "-fopenmp", "-fsanitize=address", "-fno-omit-frame-pointer"] + inc
     if variant == "tsan":  # no OpenMP: libgomp is not TSan-instrumented
@@ -23,7 +25,7 @@ def flags_for(variant, repo, spec):
 
 
 def link_flags(variant, spec):
-    if variant == "sem":
+    if variant in ("sem", "semp"):
         return ["-fopenmp"]
     if variant == "asan":
         return ["-fopenmp", "-fsanitize=address"]
@@ -85,11 +87,11 @@ CHECKS = {
             "quick": {"shards": 8, "cases": 4000}, "thorough": {"shards": 16, "cases": 120000}},
     "C04": {"engine": "e_seg",
             "quick": {"shards": 8, "cases": 2500}, "thorough": {"shards": 16, "cases": 60000}},
-    "C08": {"engine": "e_variants",
+    "C08": {"engine": "e_variants", "portable_shards": {"quick": 3, "thorough": 6},
             "quick": {"shards": 8, "cases": 3000}, "thorough": {"shards": 16, "cases": 100000}},
     "C09": {"engine": "e_variants",
             "quick": {"shards": 8, "cases": 3000}, "thorough": {"shards": 16, "cases": 100000}},
-    "C10": {"engine": "e_variants", "fuzz": [{"engine": "e_variants", "prop": "C10", "seconds": 300, "jobs": 6}],
+    "C10": {"engine": "e_variants", "portable_shards": {"quick": 3, "thorough": 6}, "fuzz": [{"engine": "e_variants", "prop": "C10", "seconds": 300, "jobs": 6}],
             "quick": {"shards": 8, "cases": 3000}, "thorough": {"shards": 16, "cases": 100000}},
     "C11": {"engine": "e_mapped",
             "quick": {"shards": 8, "cases": 2000}, "thorough": {"shards": 16, "cases": 40000}},
